@@ -9,6 +9,18 @@ ALL = ["C%02d" % i for i in range(1, 21)]
 TECH = "contract-based deductive verification: sidecar contracts on the real functions, VCs generated from /repo's ast by pyvc, discharged by z3/cvc5"
 
 CHECKS = {
+    "C06": dict(
+        category="proof", design_ref="DESIGN.md section 8 (C06)",
+        text=("SequenceMutator / MappingMutator / SetMutator: _extractor, _inserter, add_item, transform_item, remove_item (with the generic "
+              "_mutate_collection inlined) and CollectionAttrMutator.__init__ are symbolically executed from the current source against the plain "
+              "Python container operation on the abstract content of the collection: exactly one position / key / element is written, with a value "
+              "that passed the element (and key) type check, every other element and the order of the others are untouched, the container is created "
+              "when missing, a missing target raises IndexError / KeyError / ValueError with the container unchanged. The twelve generated helpers "
+              "are proved to apply exactly that edit to the attribute's container in place, or to a private copy with receiver and container untouched. "
+              "All obligations discharged by z3/cvc5 for all contents, indices and flags."),
+        note=("Scope: built-in list/dict/set containers, no slice addressing. Assumed: type_instantiate, MappingMutator._key_type (typing reflection), "
+              "mutate_value's computed element is opaque beyond its type (keywords / constructor / key promotion: bounded stand-in), A-COPY for the "
+              "private copy, A-META for the Attr record's element fields. One open known finding (in-place helper on a read-only property).")),
     "C01": dict(
         category="proof", design_ref="DESIGN.md section 8 (C01)",
         text=("The functions every copy-on-write helper funnels through - mutate_attr, with_<attr>, reset_<attr>, reset, the generated __deepcopy__/__setattr__/__delattr__ and invalidate_attrs - are symbolically executed from the current source; every heap write in them is a frame obligation (target allocated during the call, or _inplace / do_not_copy class), and 'receiver unchanged' is a postcondition of every normal and exceptional exit, discharged by z3/cvc5 for all instances, attribute names and metadata. Helpers outside these functions rest on the bounded stand-in."),
